@@ -299,7 +299,7 @@ class Inliner:
         found = False
         for bid, i, e in fn.roots():
             for n in walk(e["expr"]):
-                if n.get("k") == "call" and (self.callee_of(fn, n) is not None or self._is_foreach(fn, n) is not None):
+                if n.get("k") == "call" and (self.callee_of(fn, n) is not None or self._is_foreach(fn, n) is not None or (n.get("name") or "") == "std::find_if"):
                     found = True
                     break
             if found:
@@ -331,6 +331,9 @@ class Inliner:
                         if x is None or e.get("inl"):
                             continue
                         if self._foreach(fn, d, blocks, cexit, names, bid, i, e):
+                            progress = True
+                            break
+                        if self._findif(fn, d, blocks, cexit, names, bid, i, e):
                             progress = True
                             break
                         site = None
@@ -499,6 +502,208 @@ class Inliner:
         b.pop("noreturn", None)
         names.update({B, E, pname})
         self.log.append((fn.id, lam.id, "for_each->loop"))
+        return True
+
+    # ------------------------------------------------------------------ m = std::find_if(first, last, pred); if (m == last) A; B(*m)  ->  loop
+    def _findif(self, fn, d, blocks, cexit, names, bid, i, e):
+        """`auto m = std::find_if(R.begin(), R.end(), [..](auto& x) { return P(x); }); if (m == R.end()) { NOTFOUND } FOUND(*m)` where every path
+        through FOUND leaves the function is the loop `for (x : R) if (P(x)) { FOUND(x) }  NOTFOUND` (the first element that satisfies P is
+        taken in both). The rules read the loop form."""
+        x = e.get("expr")
+        if not (isinstance(x, dict) and x.get("k") == "decl" and len(x.get("vars", [])) == 1) or e.get("kind", "stmt") != "stmt" or not fn.file.startswith("/repo/"):
+            return False
+        v = x["vars"][0]
+        call = ir.unwrap(v.get("init"))
+        if not (isinstance(call, dict) and call.get("k") == "call" and (call.get("name") or "") == "std::find_if" and not call.get("noinline")):
+            return False
+        args = [a for a in call.get("args", []) if not (isinstance(a, dict) and a.get("k") == "defarg")]
+        if len(args) != 3:
+            return False
+        lamn = ir.unwrap(args[2])
+        if not (isinstance(lamn, dict) and lamn.get("k") == "lambda"):
+            return False
+        lam = None
+        for cid in list(lamn.get("bodies", [])) + [lamn.get("id")]:
+            g = self.prog.fn(cid) if cid else None
+            if g is not None and g.has_cfg and len(g.params) == 1:
+                lam = g
+                break
+        if lam is None:
+            return False
+        rets = [el["expr"] for _, _, el in lam.roots() if el["expr"].get("k") == "return"]
+        if len(rets) != 1 or len([1 for _, _, el in lam.roots()]) != 1 or rets[0].get("e") is None:
+            call["noinline"] = True
+            return False
+        b = blocks[bid]
+        M = v["name"]
+        rest = b["elems"][i + 1:]
+        term = b.get("term", {})
+        succ = b.get("succ", [])
+        cond = ir.unwrap(term.get("cond")) if term.get("cond") is not None else None
+        bo = ir.as_binop(cond) if cond is not None else None
+        lastf = ir.fmt(ir.unwrap(args[1]))
+        ok = term.get("kind") == "if" and len(succ) == 2 and bo and bo[0] in ("==", "!=") and {ir.fmt(ir.unwrap(bo[1])), ir.fmt(ir.unwrap(bo[2]))} == {M, lastf} \
+            and all(ir.fmt(el.get("expr")) == ir.fmt(cond) for el in rest if el.get("expr") is not None)
+        if not ok:
+            call["noinline"] = True
+            return False
+        nf_to, f_to = (succ[0]["to"], succ[1]["to"]) if bo[0] == "==" else (succ[1]["to"], succ[0]["to"])
+        # FOUND region: everything reachable from f_to; it must not fall into the NOTFOUND block and every exit leaves the function
+        region = set()
+        st = [f_to]
+        while st:
+            q = st.pop()
+            if q in region or q == cexit:
+                continue
+            region.add(q)
+            for s0 in blocks[q].get("succ", []):
+                if s0.get("to") is not None and not s0.get("unreachable"):
+                    st.append(s0["to"])
+        if nf_to in region or bid in region:
+            call["noinline"] = True
+            return False
+        for q in region:
+            bq = blocks[q]
+            if bq.get("noreturn"):
+                continue
+            to_exit = [s0 for s0 in bq.get("succ", []) if s0.get("to") == cexit]
+            if to_exit and not any(isinstance(el.get("expr"), dict) and el["expr"].get("k") == "return" for el in bq.get("elems", [])):
+                call["noinline"] = True
+                return False  # falls off the end: in the loop form the search would go on
+        self._k = getattr(self, "_k", 90) + 1
+        K = self._k
+        ln = call.get("ln")
+        p0 = lam.params[0]
+        pname = (p0.get("name") or "elem") + "@%d" % K if (p0.get("name") or "elem") in names else (p0.get("name") or "elem%d" % K)
+        ptype = p0.get("type", "")
+
+        def ref(nm, ty=""):
+            return {"k": "ref", "decl": "local:" + nm, "type": ty}
+
+        def decl(nm, init, ty=""):
+            return {"expr": {"k": "decl", "ln": ln, "vars": [{"name": nm, "type": ty, "init": init}]}, "kind": "stmt", "ln": ln, "text": "%s = %s" % (nm, ir.fmt(init)), "inl": "std::find_if"}
+        # every use of the iterator inside FOUND has to be a dereference
+        bad = []
+
+        def subst(n):
+            if isinstance(n, list):
+                return [subst(y) for y in n]
+            if not isinstance(n, dict):
+                return n
+            if n.get("k") == "member" and n.get("arrow"):
+                bb = ir.unwrap(n.get("base"))
+                if isinstance(bb, dict) and ((bb.get("k") == "call" and bb.get("op") == "->" and isinstance(ir.unwrap(bb.get("this")), dict) and ir.unwrap(bb["this"]).get("decl") == "local:" + M)
+                                             or (bb.get("k") == "ref" and bb.get("decl") == "local:" + M)):
+                    m2 = {k2: subst(v2) for k2, v2 in n.items() if k2 != "base"}
+                    m2["base"] = ref(pname, ptype)
+                    m2["arrow"] = False
+                    return m2
+            if n.get("k") == "call" and n.get("op") == "*" and n.get("this") is not None and isinstance(ir.unwrap(n["this"]), dict) and ir.unwrap(n["this"]).get("decl") == "local:" + M and not n.get("args"):
+                return ref(pname, ptype)
+            if n.get("k") == "un" and n.get("op") == "*" and isinstance(ir.unwrap(n.get("e")), dict) and ir.unwrap(n["e"]).get("decl") == "local:" + M:
+                return ref(pname, ptype)
+            if n.get("k") == "ref" and n.get("decl") == "local:" + M:
+                bad.append(n)
+            return {k2: subst(v2) for k2, v2 in n.items()}
+        new_blocks = {}
+        for q in region:
+            bq = copy.deepcopy(blocks[q])
+            for el in bq.get("elems", []):
+                if el.get("expr") is not None:
+                    el["expr"] = subst(el["expr"])
+            for key in ("cond", "full"):
+                if isinstance(bq.get("term", {}).get(key), dict):
+                    bq["term"][key] = subst(bq["term"][key])
+            new_blocks[q] = bq
+        if bad:
+            call["noinline"] = True
+            return False
+        # `auto& opt = *m->second;` at the head of FOUND names the element's payload: the name is replaced by that lvalue (a reference cannot
+        # be re-bound, and the way to the object - the loop variable - does not change inside FOUND)
+        aliases = {}
+        for q, bq in new_blocks.items():
+            keep = []
+            for el in bq.get("elems", []):
+                xx = el.get("expr")
+                if isinstance(xx, dict) and xx.get("k") == "decl" and len(xx.get("vars", [])) == 1:
+                    vv = xx["vars"][0]
+                    ty = (vv.get("type") or "").rstrip()
+                    if (vv.get("ref") or ty.endswith("&")) and not ty.endswith("&&") and vv.get("init") is not None \
+                            and any(y.get("k") == "ref" and y.get("decl") == "local:" + pname for y in walk(vv["init"])) \
+                            and not any(y.get("k") == "call" and y.get("callee") and not (y.get("op") in ("->", "*")) for y in walk(vv["init"])):
+                        aliases[vv["name"]] = vv["init"]
+                        continue
+                keep.append(el)
+            bq["elems"] = keep
+        if aliases:
+            def unalias(n):
+                if isinstance(n, list):
+                    return [unalias(y) for y in n]
+                if not isinstance(n, dict):
+                    return n
+                if n.get("k") == "ref" and str(n.get("decl", "")).startswith("local:") and n["decl"][6:] in aliases:
+                    return copy.deepcopy(aliases[n["decl"][6:]])
+                if n.get("k") in ("call", "member") and not n.get("arrow"):
+                    # `alias.f()` with alias = *p is `p->f()`
+                    key = "this" if n.get("k") == "call" else "base"
+                    t0 = ir.unwrap(n.get(key))
+                    if isinstance(t0, dict) and t0.get("k") == "ref" and str(t0.get("decl", "")).startswith("local:") and t0["decl"][6:] in aliases:
+                        a0 = ir.unwrap(aliases[t0["decl"][6:]])
+                        if isinstance(a0, dict) and a0.get("k") == "un" and a0.get("op") == "*":
+                            m2 = {k2: unalias(v2) for k2, v2 in n.items() if k2 != key}
+                            m2[key] = copy.deepcopy(a0["e"])
+                            m2["arrow"] = True
+                            return m2
+                return {k2: unalias(v2) for k2, v2 in n.items()}
+            for q, bq in new_blocks.items():
+                for el in bq.get("elems", []):
+                    if el.get("expr") is not None:
+                        el["expr"] = unalias(el["expr"])
+                for key in ("cond", "full"):
+                    if isinstance(bq.get("term", {}).get(key), dict):
+                        bq["term"][key] = unalias(bq["term"][key])
+        # the predicate with its parameter bound to the loop variable
+        fake_call = {"k": "call", "args": [], "ln": ln}
+        rw = self._rewriter(names | {pname}, lam, fake_call, [])
+        pred = rw(rets[0]["e"])
+
+        def fix_param(n):
+            if isinstance(n, dict):
+                if n.get("k") == "ref" and n.get("decl") == "param:" + (p0.get("name") or ""):
+                    n["decl"] = "local:" + pname
+                for v2 in n.values():
+                    if isinstance(v2, (dict, list)):
+                        fix_param(v2)
+            elif isinstance(n, list):
+                for y in n:
+                    fix_param(y)
+        fix_param(pred)
+        blocks.update(new_blocks)
+        f0, l0 = ir.unwrap(args[0]), ir.unwrap(args[1])
+        B, E = "__begin%d" % K, "__end%d" % K
+        init_elems = [decl(E, args[1]), decl(B, args[0])]
+        rng = None
+        if (isinstance(f0, dict) and isinstance(l0, dict) and f0.get("k") == "call" and l0.get("k") == "call" and ir.short(f0.get("name") or "") in ("begin", "cbegin")
+                and ir.short(l0.get("name") or "") in ("end", "cend") and f0.get("this") is not None and l0.get("this") is not None and ir.fmt(f0["this"]) == ir.fmt(l0["this"])):
+            rng = f0["this"]
+            R = "__range%d" % K
+            init_elems = [decl(R, rng, (ir.unwrap(rng).get("type") or "") + " &"),
+                          decl(E, {"k": "call", "name": l0.get("name"), "callee": l0.get("callee"), "this": ref(R), "args": [], "arrow": False, "type": l0.get("type", ""), "ln": ln}),
+                          decl(B, {"k": "call", "name": f0.get("name"), "callee": f0.get("callee"), "this": ref(R), "args": [], "arrow": False, "type": f0.get("type", ""), "ln": ln})]
+        new_id = max(blocks) + 1
+        head_id, test_id, latch_id = new_id, new_id + 1, new_id + 2
+        lcond = {"k": "bin", "op": "!=", "l": ref(B), "r": ref(E), "type": "bool", "ln": ln}
+        blocks[head_id] = {"id": head_id, "elems": [{"expr": lcond, "kind": "stmt", "ln": ln, "text": "%s != %s" % (B, E), "inl": "std::find_if"}],
+                           "term": {"kind": "range_for", "cond": copy.deepcopy(lcond), "ln": ln}, "succ": [{"to": test_id}, {"to": nf_to}]}
+        blocks[test_id] = {"id": test_id, "elems": [decl(pname, {"k": "un", "op": "*", "e": ref(B), "ln": ln}, ptype), {"expr": pred, "kind": "stmt", "ln": ln, "text": ir.fmt(pred), "inl": lam.id}],
+                           "term": {"kind": "if", "cond": copy.deepcopy(pred), "ln": ln}, "succ": [{"to": f_to}, {"to": latch_id}]}
+        blocks[latch_id] = {"id": latch_id, "elems": [{"expr": {"k": "un", "op": "++pre", "e": ref(B), "ln": ln}, "kind": "stmt", "ln": ln, "text": "++%s" % B, "inl": "std::find_if"}],
+                            "term": {"kind": "none"}, "succ": [{"to": head_id}]}
+        b["elems"] = b["elems"][:i] + init_elems
+        b["succ"] = [{"to": head_id}]
+        b["term"] = {"kind": "none"}
+        names.update({B, E, pname})
+        self.log.append((fn.id, lam.id, "find_if->loop"))
         return True
 
     def _splice(self, fn, d, blocks, cexit, names, bid, i, e, call, cal):
@@ -861,6 +1066,22 @@ def copyprop(fn, known_locals, log):
     glob = (written_l, written_p, written_f, all_fields_unstable)
     for nm in cand:
         if nm in written_l:
+            # a (non-const) REFERENCE that is written through - `auto& opt = *entry.second; opt.update(..)` - is another name of the object it was
+            # bound to: the name can be replaced by that lvalue as long as the way to the object (the pointer / the element it is reached
+            # through) stays what it was
+            dv = decls[nm]
+            ty = (dv.get("type") or "").rstrip()
+            if (dv.get("ref") or ty.endswith("&")) and not ty.endswith("&&") and not ty.startswith("const "):
+                init = ir.unwrap(dv["init"])
+                if isinstance(init, dict) and ((init.get("k") == "un" and init.get("op") == "*") or (init.get("k") == "call" and init.get("op") == "*") or init.get("k") == "member"):
+                    saved = set(written_l)
+                    written_l.discard(nm)
+                    try:
+                        if stable(init.get("e") if init.get("k") == "un" else (init.get("this") if init.get("k") == "call" else init), set()):
+                            subst[nm] = dv["init"]
+                    finally:
+                        written_l.clear()
+                        written_l.update(saved)
             continue
         if stable(decls[nm]["init"], set()):
             subst[nm] = decls[nm]["init"]
